@@ -4,6 +4,7 @@ import z3
 from vlib.oblig import obligation, mval
 from vlib import loader, replay, snap
 from mirsym.engine import Obj, Ref, enum, some, none, ok, err, Inconclusive
+from vlib import build as B
 from mirsym import models as M
 
 BV = z3.BitVecVal
@@ -64,3 +65,165 @@ def c09_1(run):
         if hit != 1:
             raise Inconclusive(f'translator validation: vector ({cv},{tv}) matched {hit} paths')
         run.cur.vectors += 1
+
+
+# ----------------------------------------------------------------------------------------------------------------- C09-2
+ADDR_OF = z3.Function('address_of_pubkey', z3.BitVecSort(264), z3.BitVecSort(160))
+SIG_VALID = z3.Function('vote_signature_valid', z3.BitVecSort(264), z3.BitVecSort(256), z3.BitVecSort(96), z3.BoolSort())
+SCALARS2 = dict(SCALARS, **{'tendermint::PublicKey': 264, 'tendermint::Time': 96, 'tendermint::vote::Power': 64})
+
+
+def h_power(ctx):
+    ex, st = ctx.ex, ctx.st
+    info = ex.deref_val(st, ctx.args[0])
+    return [(None, B.fld(ex, st, info, 'power', 'tendermint::vote::Power'))]
+
+
+def h_addr_from_pk(ctx):
+    return [(None, ADDR_OF(ctx.ex.deref_val(ctx.st, ctx.args[0])))]
+
+
+def h_verify_sig(ctx):
+    ex, st = ctx.ex, ctx.st
+    ts, pk, sig = ctx.args[0], ex.deref_val(st, ctx.args[3]), ex.deref_val(st, ctx.args[4])
+    v = SIG_VALID(pk, M.ident(sig), ts)
+    st.log.append(('verify', pk, M.ident(sig), ts))
+    return [(v, ok(())), (z3.Not(v), (lambda s2: err(Obj('QuorumError', kind='error'))))]
+
+
+def quorum_engine():
+    import re
+    hooks = [(re.compile(r'^tendermint::validator::Info::power$'), h_power), (re.compile(r'^<tendermint::account::Id as From<tendermint::PublicKey>>::from$'), h_addr_from_pk),
+             (re.compile(r'^verify_vote_signature$'), h_verify_sig), (re.compile(r'^tendermint::Signature::as_bytes$'), lambda ctx: [(None, ctx.args[0])])]
+    return loader.load(['astria-conductor'], scalar_types=SCALARS2, hooks=hooks, dep_adts=['tendermint', 'tendermint-rpc'])
+
+
+def replay_commit(nv, ns, powers, votes):
+    """native replay in the crate's own test build: real ed25519 keys and signatures; votes[i] = (kind, validator index, signed_ok)"""
+    from vlib import replay as R
+
+    def rp(model, path):
+        pw = [mval(model, p) % (1 << 62) for p in powers]
+        spec = []
+        for (is_commit, has_sig, addr, sig_ok, which) in votes:
+            if not mval(model, is_commit):
+                spec.append('None'); continue
+            j = [k for k in range(nv) if mval(model, which[k])]
+            spec.append(f'Some(({j[0] if j else 0}usize, {"true" if mval(model, sig_ok[j[0]] if j else z3.BoolVal(False)) else "false"}))')
+        code = open('/verif/replay_templates/c09_quorum.rs').read().replace('VERIF_POWERS', ', '.join(f'{x}u64' for x in pw)).replace('VERIF_VOTES', ', '.join(spec))
+        r = R.run_crate_test('astria-conductor', 'crates/astria-conductor/src/celestia/block_verifier.rs', code, 'verif_replay_c09')
+        if not r['lines']:
+            return {'mode': 'native-crate-test', 'reproduced': None, 'error': r['output'][-1500:]}
+        o = r['lines'][-1]
+        signed = set(int(s.split('(')[2].split('usize')[0]) for s in spec if s != 'None' and 'true' in s)
+        exact = 3 * sum(pw[j] for j in signed) > 2 * sum(pw)
+        return {'mode': 'native-crate-test', 'inputs': {'powers': pw, 'votes': spec}, 'observed': o, 'exact_quorum': exact, 'reproduced': bool(o['accepted']) and not exact}
+    return rp
+
+
+@obligation('C09', 'C09-2 ensure_commit_has_quorum: accepted only if distinct validators holding > 2/3 of the power signed validly')
+def c09_2(run):
+    ex = quorum_engine()
+    f = ex.find(r'^ensure_commit_has_quorum$')
+    shapes = [(1, 0), (1, 1), (2, 1), (2, 2)] if run.tier == 'quick' else [(1, 0), (1, 1), (1, 2), (2, 1), (2, 2), (3, 2), (3, 3), (2, 3)]
+    run.bound(validator_set='1..2 validators (3 thorough), arbitrary keys and powers', signatures='0..2 votes (3 thorough), arbitrary flags/addresses/signatures',
+              signature_check='oracle: an uninterpreted predicate of (public key, signature, timestamp)')
+    run.assume('validators of the trusted validator-set response have pairwise distinct addresses; account::Id::from(pubkey) is a function of the key')
+    n_ok = 0
+    for nv, ns in shapes:
+        vals, pks, pws = [], [], []
+        for j in range(nv):
+            pk, pw = z3.BitVec(f'pubkey{j}', 264), z3.BitVec(f'power{j}', 64)
+            vals.append(B.struct(ex, 'tendermint::validator::Info', pub_key=pk, power=pw)); pks.append(pk); pws.append(pw)
+        vset = B.struct(ex, 'tendermint_rpc::endpoint::validators::Response', block_height=z3.BitVec('set_height', 64), validators=M.new_vec('Vec<Info>', vals))
+        sigs, meta = [], []
+        for i in range(ns):
+            cs = Obj('tendermint::block::CommitSig')
+            addr, ts = z3.BitVec(f'vote_addr{i}', 160), z3.BitVec(f'vote_time{i}', 96)
+            sig = Obj('tendermint::Signature'); sig.attrs['ident'] = z3.BitVec(f'signature{i}', 256)
+            so = Obj('std::option::Option<tendermint::Signature>'); so.fields[('Some', 0)] = sig
+            a = ex.adts.lookup('tendermint::block::CommitSig'); v = [x for x in a['variants'] if x['name'] == 'BlockIdFlagCommit'][0]
+            cs.fields[('BlockIdFlagCommit', v['fields'].index('validator_address'))] = addr
+            cs.fields[('BlockIdFlagCommit', v['fields'].index('timestamp'))] = ts
+            cs.fields[('BlockIdFlagCommit', v['fields'].index('signature'))] = so
+            sigs.append(cs); meta.append((cs, so, addr, sig, ts, v['index']))
+        commit = B.struct(ex, 'tendermint::block::Commit', height=z3.BitVec('commit_height', 64), signatures=M.new_vec('Vec<CommitSig>', sigs))
+        st = ex.start(f, [B.cell(commit), B.cell(vset), B.cell(Obj('tendermint::chain::Id'))])
+        st.pc += [ADDR_OF(pks[a_]) != ADDR_OF(pks[b_]) for a_ in range(nv) for b_ in range(a_ + 1, nv)]
+        for i, p in enumerate(run.explore(ex, st)):
+            lab = f'[{nv} validators, {ns} votes, path {i}]'
+            if p.kind != 'return':
+                run.prove(f'no panic {lab}', p.pc, z3.BoolVal(False), detail=p.info); continue
+            if p.result.discr != 'Ok':
+                continue
+            n_ok += 1
+            c2 = ex.read(p, p.roots['args'][0].loc)
+            total = sum((z3.ZeroExt(8, x) for x in pws), z3.BitVecVal(0, 72))
+            signed_power = z3.BitVecVal(0, 72); votes_for_replay = []
+            m2 = []
+            for (cs, so, addr, sig, ts, cidx) in meta:
+                cs2, so2 = p.tr(cs) if False else None, None
+            # the path's copies of the vote objects: read through the commit argument
+            sig_items = B.fld(ex, p, c2, 'signatures', 'Vec<CommitSig>').attrs['items']
+            per_vote = []
+            for k, csx in enumerate(sig_items):
+                csx = ex.deref_val(p, csx)
+                is_commit = ex.discr_value(p, csx) == z3.BitVecVal(meta[k][5], 64)
+                sox = csx.fields[('BlockIdFlagCommit', 2)] if ('BlockIdFlagCommit', 2) in csx.fields else meta[k][1]
+                has_sig = ex.discr_value(p, sox) == z3.BitVecVal(1, 64)
+                per_vote.append((is_commit, has_sig, meta[k][2], meta[k][3], meta[k][4]))
+            for j in range(nv):
+                sj = z3.Or(*[z3.And(ic, hs, ad == ADDR_OF(pks[j]), SIG_VALID(pks[j], M.ident(sg), ts)) for (ic, hs, ad, sg, ts) in per_vote]) if per_vote else z3.BoolVal(False)
+                signed_power = signed_power + z3.If(sj, z3.ZeroExt(8, pws[j]), z3.BitVecVal(0, 72))
+            rp_votes = [(ic, hs, ad, [SIG_VALID(pks[j], M.ident(sg), ts) for j in range(nv)], [ad == ADDR_OF(pks[j]) for j in range(nv)]) for (ic, hs, ad, sg, ts) in per_vote]
+            run.sample({'validators': nv, 'votes': ns, 'path': i})
+            run.prove(f'accepted => commit and validator set are for the same height {lab}', p.pc, z3.BitVec('commit_height', 64) == z3.BitVec('set_height', 64))
+            run.prove(f'accepted => distinct validators with valid signatures hold strictly more than 2/3 of the total power {lab}', p.pc,
+                      z3.UGT(signed_power * 3, total * 2), replay=replay_commit(nv, ns, pws, rp_votes))
+    if not n_ok:
+        raise Inconclusive('vacuity: no accepting path')
+    run.require_reached(*run.cur.reach)
+
+
+# ----------------------------------------------------------------------------------------------------------------- C09-3
+@obligation('C09', 'C09-3 BlobVerifier::verify_metadata keeps metadata only if chain id and block hash equal the commit\'s')
+def c09_3(run):
+    import re
+    cm, hm, ok_fetch = z3.Bool('chain_ids_match'), z3.Bool('block_hashes_match'), z3.Bool('verification_meta_available')
+
+    def h_cache(ctx):
+        meta = Obj('Arc<VerificationMeta>', kind='arc'); meta.fields[('in', 0)] = Obj('celestia::verify::VerificationMeta')
+
+        def alts(ex, s2, fut):
+            return [(ok_fetch, (lambda s3: ok(s3.tr(meta)))), (z3.Not(ok_fetch), (lambda s3: err(Obj('Arc<BoxError>', kind='error'))))]
+        return [(None, M.thunk_future(alts))]
+
+    def h_match(which):
+        def h(ctx):
+            ctx.st.log.append(('compared', which))
+            return [(which, ok(())), (z3.Not(which), (lambda s2: err()))]
+        return h
+    hooks = [(re.compile(r'Cache::<.*>::try_get_with'), h_cache), (re.compile(r'^VerificationMeta::fetch$'), lambda ctx: [(None, Obj('fetch-future'))]),
+             (re.compile(r'^ensure_chain_ids_match$'), h_match(cm)), (re.compile(r'^ensure_block_hashes_match$'), h_match(hm)),
+             (re.compile(r'SubmittedMetadata::(height|cometbft_chain_id|block_hash)$|chain::Id::as_str$|Hash::as_bytes$|<RateLimitedVerificationClient as Clone>::clone'), lambda ctx: [(None, Obj(ctx.ret_ty))])]
+    ex = loader.load(['astria-conductor'], scalar_types=SCALARS2, hooks=hooks, dep_adts=['tendermint'])
+    cands = [n for n in ex.fns if n.endswith('::verify_metadata') and 'closure' not in n and ex.impl_self(n) == (None, 'BlobVerifier')]
+    if len(cands) != 1:
+        raise Inconclusive(f'BlobVerifier::verify_metadata not found: {cands}')
+    run.bound(inputs='arbitrary metadata; the cached commit lookup is an oracle (available or not); the two comparisons are oracles (symbolic Bools)', unroll='loop-free')
+    run.assume('string / byte-slice equality inside ensure_chain_ids_match / ensure_block_hashes_match is abstracted by one Bool each')
+    me = Obj('Arc<BlobVerifier>', kind='arc'); me.fields[('in', 0)] = Obj('celestia::verify::BlobVerifier')
+    md = Obj('astria_core::sequencerblock::v1::SubmittedMetadata'); md.attrs['tag'] = 'input'
+    st = ex.start(cands[0], [me, md])
+    kept = 0
+    for i, p in enumerate(run.explore(ex, st, poll=True, allow_havoc=(r'^Arguments::|fmt::',))):
+        if p.kind != 'return':
+            run.prove(f'no panic [path {i}]', p.pc, z3.BoolVal(False), detail=p.info); continue
+        r = p.result.fields[('Ready', 0)]
+        run.sample({'path': i, 'result': r.discr, 'compared': [e[1].decl().name() for e in p.log if e[0] == 'compared']})
+        if r.discr == 'Some':
+            kept += 1
+            run.prove(f'metadata is kept only if the commit was available and chain id and block hash both match it [path {i}]', p.pc, z3.And(ok_fetch, cm, hm))
+    if not kept:
+        raise Inconclusive('vacuity: no path keeps the metadata')
+    run.require_reached(*run.cur.reach)
